@@ -606,7 +606,7 @@ def c15(ctx):
     for i, fsn in enumerate(("os", "osmmap") * (3 if q else 6)):
         out = ctx.path("rec-steady-%d.ndjson" % i)
         outs2.append(out)
-        jobs.append(["steady", "-fs", fsn, "-n", "1" if q else "2", "-ops", "36" if q else "100", "-keys", str(30 + 8 * i), "-dir", ctx.path("tmp"),
+        jobs.append(["steady", "-fs", fsn, "-n", "1" if q else "4", "-ops", "36" if q else "200", "-keys", str(30 + 8 * i), "-dir", ctx.path("tmp"),
                      "-seed", str(ctx.seed * 7919 + i), "-out", out])
     add_stats(ctx, ctx.vrun_parallel(jobs), "steady")
     # the database stays usable after a Compact or Sync that FAILED (injected file-system error at a seeded call)
@@ -620,7 +620,7 @@ def c15(ctx):
     ctx.cov["distinct_nontrivial"] = h["after-compact"].get("programs", 0) + h["steady"].get("runs", 0)
     return ctx.finish("model_checking", "strict recordings (an error of Sync/Compact/Backup/Close is a violation): histories with Sync, Put, Delete, Backup (and often a clean restart) after every Compact, and histories that delete everything so that compaction removes EVERY segment, "
                       "on all four file systems; after every successful Compact the directory listing is recorded: TLC checks that every vanished segment and its side file are gone, their number equals the reported count and every remaining file is lock/db meta/index or a live segment with its side file. "
-                      "Steady state: 36-100 rounds of overwrite/delete + Compact with a clean restart every 5th round on fs.OS and fs.OSMMap; file count, directory bytes, open descriptors and mappings of the database files per round, bounded by the live data (TRound)")
+                      "Steady state: 36-200 rounds of overwrite/delete + Compact with a clean restart every 5th round on fs.OS and fs.OSMMap; file count, directory bytes, open descriptors and mappings of the database files per round, bounded by the live data (TRound)")
 
 
 def c14(ctx):
